@@ -177,6 +177,54 @@ def _raises_when_absent(func):
     return False
 
 
+def _ends_in_raise(body):
+    """does every way through this statement list end in `raise` (or a value-carrying `return`)?"""
+    if not body:
+        return False
+    last = body[-1]
+    if isinstance(last, ast.Raise):
+        return True
+    if isinstance(last, ast.Return):
+        return last.value is not None and not (isinstance(last.value, ast.Constant) and last.value.value is None)
+    if isinstance(last, ast.If):
+        return bool(last.orelse) and _ends_in_raise(last.body) and _ends_in_raise(last.orelse)
+    if isinstance(last, ast.Try):
+        main = _ends_in_raise(last.orelse) if last.orelse else _ends_in_raise(last.body)
+        return (_ends_in_raise(last.finalbody) or
+                (main and all(_ends_in_raise(h.body) for h in last.handlers)))
+    if isinstance(last, ast.With):
+        return _ends_in_raise(last.body)
+    return False
+
+
+def _may_yield_nothing(tree, cls, value, rel):
+    """the expression assigned to `…["known_hosts"]` in the strict branch: can it evaluate to None
+    (so that connect() gets known_hosts=None after all)?  Supported shapes: a call of a method of the
+    class (then: EVERY path of that method that does not return a value must raise — no `return`,
+    `return None`, swallowed exception or falling off the end), or a tuple / list / call of something
+    else (taken as a value).  Conditional expressions, names, constants: not translated."""
+    if isinstance(value, ast.Call) and isinstance(value.func, ast.Attribute) and isinstance(value.func.value, ast.Name) \
+            and value.func.value.id == "self":
+        m = _func(tree, value.func.attr, cls)
+        if m is None:
+            raise TranslateError(f"{rel}: method {value.func.attr} handed to known_hosts not found in {cls}")
+        for n in ast.walk(m):
+            if isinstance(n, ast.Return) and (n.value is None or (isinstance(n.value, ast.Constant) and n.value.value is None)):
+                return True
+            if isinstance(n, (ast.IfExp,)) and any(isinstance(x, ast.Constant) and x.value is None for x in (n.body, n.orelse)):
+                return True
+        # a try whose handlers do not all end in raise lets the exception of the key import be swallowed
+        for n in ast.walk(m):
+            if isinstance(n, ast.Try) and not all(_ends_in_raise(h.body) for h in n.handlers):
+                return True
+            if isinstance(n, ast.With) and any("suppress" in ast.dump(i.context_expr) for i in n.items):
+                return True
+        return not _ends_in_raise(m.body)
+    if isinstance(value, (ast.Tuple, ast.List, ast.Call)):
+        return False
+    raise TranslateError(f"{rel}:{value.lineno}: value handed to known_hosts has a shape that is not translated")
+
+
 def _open_calls(name):
     rel, cls = TRANSPORTS[name]
     tree = _parse(rel)
@@ -185,7 +233,7 @@ def _open_calls(name):
         raise TranslateError(f"{rel}: {cls}.open not found")
     vk, vkv = _func(tree, "_verify_key", cls), _func(tree, "_verify_key_value", cls)
     out = []          # (position, call name, guarded)
-    pins = []         # (position, guarded) of `X["known_hosts"] = <not None>`
+    pins = []         # (position, guarded, value node) of `X["known_hosts"] = <not None>`
     kh_literal_none = None
 
     def classify(call):
@@ -241,7 +289,7 @@ def _open_calls(name):
                 if isinstance(t, ast.Subscript) and isinstance(t.slice, ast.Constant) and t.slice.value == "known_hosts":
                     v = node.value
                     if not (isinstance(v, ast.Constant) and v.value is None):
-                        pins.append(((node.lineno, node.col_offset), guarded))
+                        pins.append(((node.lineno, node.col_offset), guarded, v))
         if isinstance(node, ast.Dict):
             for k, v in zip(node.keys, node.values):
                 if isinstance(k, ast.Constant) and k.value == "known_hosts":
@@ -261,10 +309,11 @@ def _open_calls(name):
                 raise TranslateError(f"{rel}: cannot see what is passed as known_hosts to connect()")
             if kh_literal_none is False:
                 raise TranslateError(f"{rel}: known_hosts in the literal arguments of connect() is not None: shape not translated")
-            before = [(p, gd) for p, gd in pins if p < pos]
-            if any(not gd for _, gd in before):
+            before = [(p, gd, v) for p, gd, v in pins if p < pos]
+            if any(not gd for _, gd, _ in before):
                 raise TranslateError(f"{rel}: known_hosts set outside the strict branch: shape not translated")
-            calls.append((f".connect {lbool(bool(before))}", g))
+            fallback = any(_may_yield_nothing(tree, cls, v, rel) for _, _, v in before)
+            calls.append((f".connect {lbool(bool(before))} {lbool(fallback)}", g))
         else:
             calls.append(("." + k, g))
     if not calls:
